@@ -86,11 +86,14 @@ type Program struct {
 	// and Churn records "x<i>" = i*7%1000 written by one Set before the clients start — and the
 	// VALUE_INT64 (asc + desc) and KEY indexes are built before the clients start. Record x<i>
 	// is touched by client i % len(Clients) only (ops xset / xdel / xshift).
-	Churn   int          `json:"churn,omitempty"`
-	Config  int          `json:"config"`
-	Keys    []KeySpec    `json:"keys"`
-	Clients [][]Op       `json:"clients"`
-	Plan    []PlanAction `json:"plan,omitempty"`
+	Churn int `json:"churn,omitempty"`
+	// NoAnchor (C10 from-empty facet): nothing is written before the clients start — the swamp
+	// does not exist yet, and it auto-destroys whenever its last record is deleted.
+	NoAnchor bool         `json:"no_anchor,omitempty"`
+	Config   int          `json:"config"`
+	Keys     []KeySpec    `json:"keys"`
+	Clients  [][]Op       `json:"clients"`
+	Plan     []PlanAction `json:"plan,omitempty"`
 }
 
 func isWrite(k string) bool {
@@ -470,6 +473,7 @@ type RunResult struct {
 	Hung       []int    // clients that did not return within the watchdog
 	PanicsBy   int      // number of "panic" log records produced while the program ran
 	PanicTexts []string // their full text (message, error, stack)
+	SortAborts []string // "failed to sort …" error records logged while the program ran
 	Recent     []string
 	Fired      []string
 	Hits       map[string]int
@@ -497,6 +501,7 @@ func RunProgram(r *rig.Rig, cli hydrapb.HydraideServiceClient, swamp string, p *
 	panics0 := r.Logs.Panics()
 	r.Logs.Reset()
 	takePanicTexts()
+	takeSortAborts()
 
 	var mu sync.Mutex
 	var events []Event // clients that outlive the watchdog keep appending here, never to res
@@ -523,7 +528,7 @@ func RunProgram(r *rig.Rig, cli hydrapb.HydraideServiceClient, swamp string, p *
 	// destroys the swamp, which is C16's subject, not this one's.
 	if p.Churn > 0 {
 		e.churnSetup()
-	} else {
+	} else if !p.NoAnchor {
 		s := "anchor"
 		g := r.G
 		_, _ = g.Set(context.Background(), &hydrapb.SetRequest{Swamps: []*hydrapb.SwampRequest{{
@@ -609,6 +614,7 @@ func RunProgram(r *rig.Rig, cli hydrapb.HydraideServiceClient, swamp string, p *
 	res.PanicsBy = r.Logs.Panics() - panics0
 	res.Recent = r.Logs.Recent(60)
 	res.PanicTexts = takePanicTexts()
+	res.SortAborts = takeSortAborts()
 	rs.mu.Lock()
 	res.ReadViolations, res.Reads = rs.violations, rs.reads
 	rs.mu.Unlock()
